@@ -39,6 +39,10 @@ NEEDS = {
     'C07-agent2': ('C07', 'per-shard frequency offset of the sharded longitude derivative computed from the y instead of the x mesh size: needs a mesh with x > 1 and x != y AND a grid whose resolved zonal wavenumbers extend beyond the first x-shard', ['C07']),
     'C08-agent2': ('C08', 'stop_gradient on the scanned inputs inside the checkpointed inner scan: primal values and gradients w.r.t. the initial carry unchanged; gradients w.r.t. scanned inputs xs are zero whenever len(nested_lengths) >= 2 (still finite and self-adjoint)', ['C08', 'C14']),
     'C12-agent2': ('C12', 'implicit-solve matrix built with unit-sphere Laplacian eigenvalues -l(l+1) instead of the grid eigenvalues -l(l+1)/radius^2: invisible whenever the non-dimensional radius is 1 (default and atmospheric scales, any scale changing only time/mass/temperature) and in every single tendency; needs a length scale != RADIUS and a semi-implicit solve or step', ['C12', 'C03']),
+    'C01-agent2': ('C01', "order='F' dropped from the reshape that splits the Fourier matrix for stacked transforms: only FastSphericalHarmonics with stacked_fourier_transforms=True (non-default below 129 wavenumbers) pairs Legendre blocks with the wrong Fourier columns; Real and unstacked Fast are untouched", ['C01', 'C09']),
+    'C13-agent2': ('C13', 'monotonicity check rewritten as `np.any(np.diff(b) <= 0)`: equivalent for finite values, but a NaN interior boundary is now accepted (comparisons with NaN are False)', ['C13']),
+    'C18-agent2': ('C18', 'Scale.dimensionalize converts the scaling factor to the target unit first and multiplies magnitudes: correct for multiplicative units, wrong for offset temperature units (degC, degF), where the conversion is affine', ['C18']),
+    'C20-agent2': ('C20', 'boundary-layer ramp factored into a helper with default sigma_b=0.7; kv() calls it without the configured sigma_b: identical for the default, wrong friction profile for any other sigma_b', ['C20']),
     'C20-agent': ('C20', 'Held-Suarez kt computed as kv()/kf: identical unless kf == 0 (no friction), where it becomes NaN', ['C20']),
 }
 
